@@ -10,7 +10,7 @@ WEIGHTS = dict(UngroupPorts=8, SetPlatform=4, Group=2, Append=2, Insert=1, Reseq
 
 def run(tier, seed):
     rng = random.Random(seed * 256203161 + 19)
-    mcs = [core.mc("MC_Acl", "MC_Acl" if tier == "quick" else "MC_Acl_4"),
+    mcs = [core.mc("MC_Acl", "MC_Acl" if tier == "quick" else "MC_Acl_4"), core.mc("MC_Acl", "MC_Acl_deep"),
            core.mc("MC_Acl", "MC_Acl_deviation", expect_violation="P_C19_DeviationExists")]
     n = 1500 if tier == "quick" else 12000
     jobs = [aclhist.make_history(rng, t, WEIGHTS, nops=rng.randint(1, 4), plat="ios") for t in range(1, n + 1)]
